@@ -142,12 +142,189 @@ let run fn (args : string list) : string =
                | None -> "err")
   | _ -> "-\t-"   (* not modelled here: compared with the oracle only *)
 
+(* ---- the value-tree model of json.Marshal / json.Unmarshal (Json/TreeModel.v): cases j.tree.enc / j.tree.dec ---- *)
+module Tree = struct
+
+
+let rec pos_of_int n =
+  if n = 1 then XH else if n land 1 = 0 then XO (pos_of_int (n lsr 1)) else XI (pos_of_int (n lsr 1))
+let z_of_int n = if n = 0 then Z0 else if n > 0 then Zpos (pos_of_int n) else Zneg (pos_of_int (-n))
+let rec nat_of_int n = if n <= 0 then O else S (nat_of_int (n - 1))
+
+(* decimal <-> Z without bounds *)
+let z_of_string s =
+  let neg = String.length s > 0 && s.[0] = '-' in
+  let ten = z_of_int 10 in
+  let acc = ref Z0 in
+  String.iteri (fun i c -> if not (neg && i = 0) then
+    acc := Z.add (Z.mul !acc ten) (z_of_int (Char.code c - 48))) s;
+  if neg then Z.opp !acc else !acc
+
+let dec_of_pos p =
+  let rec bits p acc = match p with XH -> 1 :: acc | XO q -> bits q (0 :: acc) | XI q -> bits q (1 :: acc) in
+  let bs = bits p [] in
+  let digits = ref [0] in (* little endian decimal *)
+  List.iter (fun b ->
+    let carry = ref b in
+    digits := List.map (fun d -> let v = d * 2 + !carry in carry := v / 10; v mod 10) !digits;
+    if !carry > 0 then digits := !digits @ [!carry]) bs;
+  String.concat "" (List.rev_map string_of_int !digits)
+let string_of_z = function Z0 -> "0" | Zpos p -> dec_of_pos p | Zneg p -> "-" ^ dec_of_pos p
+
+let rec int_of_pos p = match p with XH -> 1 | XO q -> 2 * int_of_pos q | XI q -> 2 * int_of_pos q + 1
+let int_of_z z = match z with Z0 -> 0 | Zpos p -> int_of_pos p | Zneg p -> - (int_of_pos p)
+
+let hexval c = match c with '0'..'9' -> Char.code c - 48 | 'a'..'f' -> Char.code c - 87 | _ -> failwith "hex"
+(* bytes 0..255 as shared Z values *)
+let ztab = Array.init 256 z_of_int
+let bytes_of_hex s =
+  if s = "-" then [] else begin
+    if String.length s land 1 = 1 then failwith "odd hex";
+    let n = String.length s / 2 in
+    List.init n (fun i -> ztab.(hexval s.[2*i] * 16 + hexval s.[2*i+1]))
+  end
+let add_hex b l = List.iter (fun z -> Buffer.add_string b (Printf.sprintf "%02x" (int_of_z z))) l
+let hex_of_bytes l =
+  if l = [] then "-" else begin
+    let b = Buffer.create 64 in add_hex b l; Buffer.contents b
+  end
+let bytes_of_string s = List.init (String.length s) (fun i -> ztab.(Char.code s.[i]))
+
+type sx = Atom of string | List of sx list
+let parse_sx (s : string) : sx =
+  let n = String.length s in
+  let pos = ref 0 in
+  let rec skip () = if !pos < n && s.[!pos] = ' ' then (incr pos; skip ()) in
+  let rec one () =
+    skip ();
+    if !pos >= n then failwith "sx: end";
+    if s.[!pos] = '(' then begin
+      incr pos;
+      let items = ref [] in
+      let rec loop () =
+        skip ();
+        if !pos >= n then failwith "sx: end";
+        if s.[!pos] = ')' then incr pos else (items := one () :: !items; loop ()) in
+      loop (); List (List.rev !items)
+    end else begin
+      let st = !pos in
+      while !pos < n && s.[!pos] <> ' ' && s.[!pos] <> '(' && s.[!pos] <> ')' do incr pos done;
+      if !pos = st then failwith "sx: empty atom";
+      Atom (String.sub s st (!pos - st))
+    end in
+  let r = one () in
+  skip ();
+  if !pos <> n then failwith "sx: trailing";
+  r
+
+(* ---- types ---- *)
+let rec ty_of_sx (x : sx) : jty =
+  match x with
+  | Atom "bool" -> JBool
+  | Atom "str" -> JStr
+  | Atom "i8" -> JInt (true, z_of_int 8) | Atom "i16" -> JInt (true, z_of_int 16)
+  | Atom "i32" -> JInt (true, z_of_int 32) | Atom "i64" -> JInt (true, z_of_int 64)
+  | Atom "u8" -> JInt (false, z_of_int 8) | Atom "u16" -> JInt (false, z_of_int 16)
+  | Atom "u32" -> JInt (false, z_of_int 32) | Atom "u64" -> JInt (false, z_of_int 64)
+  | List [Atom "ptr"; t] -> JPtr (ty_of_sx t)
+  | List [Atom "slice"; t] -> JSlice (ty_of_sx t)
+  | List [Atom "arr"; Atom n; t] ->
+      let k = int_of_string n in
+      if k < 0 || k > 100000 then failwith "array length";
+      JArr (nat_of_int k, ty_of_sx t)
+  | List [Atom "map"; Atom "str"; t] -> JMap (ty_of_sx t)
+  | List (Atom "struct" :: fs) -> JStruct (fields_of 0 fs)
+  | _ -> failwith "bad type"
+and fields_of (i : int) (fs : sx list) : jfields =
+  match fs with
+  | [] -> FNil
+  | List [Atom "f"; Atom gname; Atom tag; t] :: r ->
+      if gname <> "F" ^ string_of_int i then failwith "field name";
+      let name, omit =
+        match String.split_on_char ',' tag with
+        | [n] -> (n, false)
+        | [n; "omitempty"] -> (n, true)
+        | _ -> failwith "bad tag" in
+      FCons (bytes_of_string name, omit, ty_of_sx t, fields_of (i + 1) r)
+  | _ -> failwith "bad field"
+
+(* ---- values ---- *)
+let is_dec s =
+  let n = String.length s in
+  let st = if n > 0 && s.[0] = '-' then 1 else 0 in
+  n > st && (let ok = ref true in for i = st to n - 1 do if s.[i] < '0' || s.[i] > '9' then ok := false done; !ok)
+
+let rec val_of_sx (x : sx) : jval =
+  match x with
+  | Atom "true" -> VBool true
+  | Atom "false" -> VBool false
+  | Atom "nil" -> VNil
+  | Atom a when a.[0] = 'x' -> VStr (bytes_of_hex (String.sub a 1 (String.length a - 1)))
+  | Atom a when is_dec a -> VInt (z_of_string a)
+  | List [Atom "p"; v] -> VPtr (val_of_sx v)
+  | List (Atom "l" :: vs) -> VList (List.map val_of_sx vs)
+  | List (Atom "st" :: vs) -> VStruct (List.map val_of_sx vs)
+  | List (Atom "m" :: es) ->
+      VMap (List.map (function
+        | List [Atom k; v] when k.[0] = 'x' -> (bytes_of_hex (String.sub k 1 (String.length k - 1)), val_of_sx v)
+        | _ -> failwith "bad map entry") es)
+  | _ -> failwith "bad value"
+
+let rec add_val (b : Buffer.t) (v : jval) : unit =
+  match v with
+  | VBool true -> Buffer.add_string b "true"
+  | VBool false -> Buffer.add_string b "false"
+  | VInt z -> Buffer.add_string b (string_of_z z)
+  | VStr s -> Buffer.add_char b 'x'; add_hex b s
+  | VNil -> Buffer.add_string b "nil"
+  | VPtr v' -> Buffer.add_string b "(p "; add_val b v'; Buffer.add_char b ')'
+  | VList l -> Buffer.add_string b "(l"; List.iter (fun e -> Buffer.add_char b ' '; add_val b e) l; Buffer.add_char b ')'
+  | VStruct l -> Buffer.add_string b "(st"; List.iter (fun e -> Buffer.add_char b ' '; add_val b e) l; Buffer.add_char b ')'
+  | VMap m ->
+      Buffer.add_string b "(m";
+      List.iter (fun (k, e) -> Buffer.add_string b " (x"; add_hex b k; Buffer.add_char b ' '; add_val b e; Buffer.add_char b ')') m;
+      Buffer.add_char b ')'
+
+let string_of_val v = let b = Buffer.create 256 in add_val b v; Buffer.contents b
+
+(* split at the first bar *)
+let split_bar s =
+  match String.index_opt s '|' with
+  | None -> failwith "no bar"
+  | Some i -> (String.sub s 0 i, String.sub s (i + 1) (String.length s - i - 1))
+
+let tree_run fn args =
+  match fn with
+  | "j.tree.enc" ->
+      let ts, vs = split_bar args in
+      let t = ty_of_sx (parse_sx ts) in
+      let v = val_of_sx (parse_sx vs) in
+      if ty_ok t && jwf t v then hex_of_bytes (jenc t v) else "-"
+  | "j.tree.dec" | "j.tree.dec.pp" ->
+      let ts, hs = split_bar args in
+      let t = ty_of_sx (parse_sx ts) in
+      if not (ty_ok t) then "-" else begin
+        let doc = bytes_of_hex hs in
+        match jdec (jdec_fuel doc) t doc with
+        | DOk v -> string_of_val v
+        | DErr -> "err"
+        | DOut -> "-"
+      end
+  | _ -> "-"
+
+
+end
+
 let () =
   try
     while true do
       let line = input_line stdin in
       if String.length line > 200000 then print_endline "-\t-" else
       match String.split_on_char '\t' line with
+      | fn :: args :: _ when String.length fn > 7 && String.sub fn 0 7 = "j.tree." ->
+          let r = (try Tree.tree_run fn args with _ -> "-") in
+          (* the model follows the package; on the recorded deviation F31 (fn suffix .pp) it is not a model of encoding/json *)
+          print_string r; print_char '\t'; print_endline (if fn = "j.tree.dec.pp" then "-" else r)
       | fn :: args :: _ ->
           let r = (try run fn (String.split_on_char ' ' args)
                    with e -> "model-exception:" ^ Printexc.to_string e ^ "\tmodel-exception") in
